@@ -1,6 +1,7 @@
 """C12 — syntax flags accept exactly the documented grammar: flag plumbing (DESIGN §4)."""
 from rules import syntax as S
 from rules.core import guarded
+from rules import extra as X
 
 INFO = {
     "explanation": "Each NumberFormat::<F>::NAME is shown to read exactly flags::NAME (and each getter its own const); without `format` the hard-coded consts equal STANDARD's bits; every flag-specific error in parse_number / parse_*sign is constructed only on paths where that flag's getter tested true, and still is constructed somewhere; '-' yields a negative only under T::IS_SIGNED; every syntax flag is read by the parser(s) it concerns.",
@@ -15,3 +16,4 @@ def run(col, configs, tier):
         guarded(col, S.rule_getters, facts)
         guarded(col, S.rule_error_pairing, facts)
         guarded(col, S.rule_flags_enforced, facts)
+        guarded(col, X.rule_suffix_needs_digit, facts)
